@@ -35,6 +35,7 @@ type c19Case struct {
 	NoKey   int    // index of a validator without a Minter address (-1: all registered)
 	Shift   bool   // the stake moves (by less than a signer-set refresh needs) after the Minter signer set was published
 	Tiny    int64  // >0: transfer amount in hub units (commission of a few units: shares round to zero)
+	OneTx   bool   // the hub-originated transfers are sent in ONE transaction (they share its hash)
 }
 
 func c19Cases(tier string) []c19Case {
@@ -57,7 +58,7 @@ func c19Cases(tier string) []c19Case {
 								if (sz+sp+fp+pr)%2 == 1 {
 									ch = "bsc"
 								}
-								out = append(out, c19Case{sz, sp, fp, pr, d, pw, or, ch, -1, false, 0})
+								out = append(out, c19Case{sz, sp, fp, pr, d, pw, or, ch, -1, false, 0, false})
 							}
 						}
 					}
@@ -69,7 +70,7 @@ func c19Cases(tier string) []c19Case {
 	for _, pw := range [][]int64{{60, 30, 10}, {30, 60, 10}, {20, 30, 50}} {
 		for nk := 0; nk < 2; nk++ {
 			for _, d := range []uint64{6, 18} {
-				out = append(out, c19Case{2, 0, 1, 0, d, pw, "hub", "ethereum", nk, false, 0})
+				out = append(out, c19Case{2, 0, 1, 0, d, pw, "hub", "ethereum", nk, false, 0, false})
 			}
 		}
 	}
@@ -79,16 +80,20 @@ func c19Cases(tier string) []c19Case {
 		for _, or := range []string{"hub", "minter"} {
 			for _, d := range []uint64{6, 18} {
 				for fp := 0; fp < 2; fp++ {
-					out = append(out, c19Case{2, 0, fp, 0, d, pw, or, "ethereum", -1, true, 0})
+					out = append(out, c19Case{2, 0, fp, 0, d, pw, or, "ethereum", -1, true, 0, false})
 				}
 			}
 		}
+	}
+	// two withdrawals with different fees in one hub transaction
+	for _, d := range []uint64{6, 18} {
+		out = append(out, c19Case{2, 1, 1, 0, d, []int64{10, 10, 10}, "hub", "ethereum", -1, false, 0, true})
 	}
 	// commissions of a few units only
 	for _, amt := range []int64{100, 250, 1000} {
 		for _, pw := range [][]int64{{10, 10, 10}, {98, 1, 1}, {7}} {
 			for _, sz := range []int{1, 2} {
-				out = append(out, c19Case{sz, 0, 1, 0, 18, pw, "hub", "ethereum", -1, false, amt})
+				out = append(out, c19Case{sz, 0, 1, 0, 18, pw, "hub", "ethereum", -1, false, amt, false})
 			}
 		}
 	}
@@ -195,7 +200,21 @@ func c19Run(in *hub.Instance, cs c19Case) (res c19Res) {
 	txhash := make([]string, cs.Size)
 	refundAddr := make([]string, cs.Size)
 	evNonce := uint64(0)
-	for i := 0; i < cs.Size; i++ {
+	if cs.OneTx {
+		var msgs []sdk.Msg
+		for i := 0; i < cs.Size; i++ {
+			msgs = append(msgs, mhubtypes.NewMsgSendToExternal(mhubtypes.ChainID(cs.Chain), users[i], hub.HexAddr(fmt.Sprintf("rc%d", i)), sdk.NewCoin("hub", sdk.NewIntFromBigInt(amount)), sdk.NewCoin("hub", sdk.NewIntFromBigInt(fees[i]))))
+		}
+		r := in.DeliverMsgs(msgs...)
+		if !r.OK() {
+			res.outcome = "setup-send-failed"
+			return
+		}
+		for i := range txhash {
+			txhash[i] = r.TxHash
+		}
+	}
+	for i := 0; i < cs.Size && !cs.OneTx; i++ {
 		if origin(i) == "hub" {
 			r := in.DeliverMsg(mhubtypes.NewMsgSendToExternal(mhubtypes.ChainID(cs.Chain), users[i], hub.HexAddr(fmt.Sprintf("rc%d", i)), sdk.NewCoin("hub", sdk.NewIntFromBigInt(amount)), sdk.NewCoin("hub", sdk.NewIntFromBigInt(fees[i]))))
 			if !r.OK() {
@@ -376,6 +395,17 @@ func c19Run(in *hub.Instance, cs c19Case) (res c19Res) {
 	}
 	if new(big.Rat).SetInt(sumCom).Cmp(collected) > 0 {
 		bad("commission_payouts_exceed_collected", "batchTxExecuted", "paid %s, collected %s", sumCom, collected.FloatString(0))
+	}
+	if cs.OneTx {
+		// the transfers share the transaction hash and with it the fee record: it can report the fee kept of one of them only
+		rec := in.Hub.GetTxFeeRecord(in.Ctx(), txhash[0])
+		for _, tx := range bt.Transactions {
+			if rec == nil || !rec.ExternalFee.Equal(tx.Fee.Amount) {
+				bad("fee_record_differs_from_fee_kept", "batchTxExecuted(TxFeeRecord of transfers sharing one transaction hash)", "transfer %d of transaction %s paid and kept fee %s external units, the fee record of its transaction reports %v", tx.Id, txhash[0][:8], tx.Fee.Amount, rec)
+			}
+		}
+		res.outcome = "executed (two transfers of one transaction)"
+		return
 	}
 	// (4) fee record: between zero and the fee paid, in the token's external units
 	for i := 0; i < cs.Size; i++ {
